@@ -110,13 +110,43 @@ theorem c03_released_exactly_once (hevc gop : Bool) (ls : List Label) :
   have h := hg.cinv c hc
   exact ⟨hu c hc, h.calls, fun hr => ⟨(h.reg hr).1, (h.reg hr).2.1⟩⟩
 
-/-- Promptness (stream layer): a closed consumption whose consumer is not stalled inside `Consume`
-    is released within TWO steps of its own goroutine, whatever else happens in between is
-    irrelevant to it (c01_independent): Consumer.Close has then been called exactly once. -/
-theorem c03_released_within_two_steps (c : Cons) (hcl : c.closed = true) (hst : c.stalled = false)
+/-- Promptness (stream layer), PARTIAL: a closed consumption whose consumer is NOT blocked inside
+    `Consume` is released within TWO steps of its own goroutine, whatever else happens in between
+    is irrelevant to it (c01_independent): Consumer.Close has then been called exactly once.
+    The full statement of the property ("every consumer … has its connection closed promptly")
+    has no such hypothesis; it fails for a consumer blocked inside `Consume` (a client that stopped
+    reading: the transports write without a deadline and nothing but the delivery goroutine itself
+    ever closes the transport): `c03_blocked_consumer_not_released` — open finding
+    `stalled-consumer-not-released-at-stream-end`. -/
+theorem c03_released_within_two_steps_partial (c : Cons) (hcl : c.closed = true) (hst : c.stalled = false)
     (hex : c.exited = false) (hcalls : c.closeCalls = 0) :
     c.step.1.step.1.exited = true ∧ c.step.1.step.1.closeCalls = 1 ∧ c.step.1.step.1.registered = false :=
   released_in_two c hcl hst hex hcalls
+
+/-- The excluded case, as a theorem about the model (and a scenario on the implementation, every
+    run): a consumer blocked inside `Consume` with a packet in flight makes no step at all, so after
+    the stream closed it stays unreleased — Consumer.Close not called, goroutine alive — for as
+    long as it stays blocked, whatever number of steps its goroutine is offered. -/
+theorem c03_blocked_consumer_not_released (c : Cons) (p : Pkt) (hex : c.exited = false)
+    (hin : c.inflight = some p) (hst : c.stalled = true) (n : Nat) :
+    (Nat.repeat (fun c => c.step.1) n c) = c := by
+  have h1 : c.step.1 = c := by
+    have k : c.stepKind = .blocked := by simp [Cons.stepKind, hex, hin, hst]
+    show (c.apply c.stepKind).1 = c
+    rw [k]; simp [Cons.apply]
+  induction n with
+  | zero => rfl
+  | succ n ih => simp only [Nat.repeat]; rw [ih, h1]
+
+/-- … and such a state is reached: join, stall, two packets published (the first one is now in
+    flight inside the blocked `Consume`), the stream closes, the goroutine is offered five steps:
+    closed, not exited, Consumer.Close never called. -/
+theorem c03_blocked_consumer_witness :
+    let pk : Pkt := { uid := 1, ch := 0, payload := [0x61, 1, 2, 3] }
+    let s := (genInit false false).run [.join 0 false 0, .stall 0, .pub pk, .pub { pk with uid := 2 },
+      .cstep 0, .cstep 0, .close, .cstep 0, .cstep 0, .cstep 0, .cstep 0, .cstep 0]
+    s.cons.map (fun c => (c.closed, c.exited, c.closeCalls, c.inflight.isSome)) = [(true, false, 0, true)] := by
+  decide
 
 /-- Attach during / after close: a consumer that attaches once the stream's status is no longer OK
     is never registered and is closed at once (so the two-step release applies to it). -/
